@@ -112,10 +112,12 @@ type c15Case struct {
 	FlushMid bool
 	Interim  int  // interim (1xx) response sent first
 	Abort    bool // the origin breaks the response off after the first of its writes
+	FlushOne bool // flush once, after the first write only
+	Status2  int  // second, superfluous WriteHeader
 }
 
 func (c c15Case) String() string {
-	return fmt.Sprintf("pos=%s level=%d min=%d AE=%q type=%q size=%d payload=%s status=%d declare=%v %s writes=%d flushmid=%v interim=%d abort=%v", c.Pos, c.Level, c.Min, c.AE, c.CType, c.Size, c.Payload, c.Status, c.Declare, c.Method, c.Writes, c.FlushMid, c.Interim, c.Abort)
+	return fmt.Sprintf("pos=%s level=%d min=%d AE=%q type=%q size=%d payload=%s status=%d declare=%v %s writes=%d flushmid=%v interim=%d abort=%v flushone=%v status2=%d", c.Pos, c.Level, c.Min, c.AE, c.CType, c.Size, c.Payload, c.Status, c.Declare, c.Method, c.Writes, c.FlushMid, c.Interim, c.Abort, c.FlushOne, c.Status2)
 }
 
 // origin returns the handler program and the entity the origin serves (body as the origin
@@ -156,6 +158,10 @@ func (c c15Case) origin() (*hprog, []byte, bool) {
 	if c.Abort {
 		p.AbortAfter = 1
 	}
+	if c.FlushOne {
+		p.FlushAfter = 1
+	}
+	p.Status2 = c.Status2
 	return p, plain, pre
 }
 
@@ -384,6 +390,43 @@ func c15Cases(th bool) []c15Case {
 			}
 		}
 	}
+	// one flush after the first write only: what follows the flush must not be buffered and
+	// compressed behind a header that is already out; tiny first parts included
+	for _, mn := range []int{1, 64} {
+		for _, sz := range []int{2, 3, 130, 3000, 100 * 1024} {
+			for _, w := range []int{2, 3} {
+				for _, st := range []int{0, 200, 404} {
+					for _, ae := range []string{"gzip", "-"} {
+						out = append(out, c15Case{Pos: "gzip", Level: 5, Min: mn, AE: ae, CType: "text/html", Size: sz, Payload: "text", Status: st, Method: "GET", Writes: w, FlushOne: true})
+					}
+				}
+			}
+		}
+	}
+	// min_size 0 is a valid configuration: empty and bodiless answers stay empty
+	for _, st := range []int{0, 200, 204, 304, 404} {
+		for _, m := range []string{"GET", "HEAD"} {
+			for _, sz := range []int{0, 1, 70} {
+				if (st == 204 || st == 304) && sz != 0 {
+					continue
+				}
+				for _, decl := range []bool{false, true} {
+					out = append(out, c15Case{Pos: "gzip", Level: 5, Min: 0, AE: "gzip", CType: "text/html", Size: sz, Payload: "text", Status: st, Declare: decl, Method: m, Writes: 1})
+				}
+			}
+		}
+	}
+	// a superfluous second WriteHeader: the first one counts
+	for _, st := range [][2]int{{404, 200}, {200, 500}, {204, 200}} {
+		for _, sz := range []int{0, 70} {
+			if st[0] == 204 && sz != 0 {
+				continue
+			}
+			for _, ae := range []string{"gzip", "-"} {
+				out = append(out, c15Case{Pos: "gzip", Level: 5, Min: 64, AE: ae, CType: "text/html", Size: sz, Payload: "text", Status: st[0], Status2: st[1], Method: "GET", Writes: 1})
+			}
+		}
+	}
 	// an interim (1xx) response before the final one
 	for _, pos := range []string{"gzip", "logging,gzip", "size_limit,gzip"} {
 		for _, sz := range []int{0, 65, 5000} {
@@ -392,7 +435,12 @@ func c15Cases(th bool) []c15Case {
 					continue
 				}
 				for _, ae := range []string{"gzip", "-"} {
-					out = append(out, c15Case{Pos: pos, Level: 5, Min: 64, AE: ae, CType: "text/html", Size: sz, Payload: "text", Status: st, Method: "GET", Writes: 1, Interim: 103})
+					for _, ic := range []int{103, 100, 102, 199} {
+						if ic != 103 && (pos != "gzip" || st == 0) {
+							continue
+						}
+						out = append(out, c15Case{Pos: pos, Level: 5, Min: 64, AE: ae, CType: "text/html", Size: sz, Payload: "text", Status: st, Method: "GET", Writes: 1, Interim: ic})
+					}
 				}
 			}
 		}
